@@ -44,7 +44,13 @@ func Ctx(g *G, nprog, steps int) []Program {
 			case k < 79: // NaN makers: zeros and infinities
 				g.loadClass(g.PickS(regs...), g.PickS("+0", "-0", "+inf", "-inf"), 0)
 			case k < 84:
-				g.Load(g.PickS(regs...), g.Bool(), g.Digits(1+g.R.Intn(40)), int64(g.R.Intn(21)-10), g.Pick(0, 50), g.Mode())
+				d := g.Digits(1 + g.R.Intn(40))
+				if g.R.Intn(3) == 0 {
+					// much more precise than the context, the only other non-zero digit far down in the low words: the context's
+					// rounding must still see it (sticky), whatever shortcut the operation takes with a long operand
+					d = g.Digits(1+g.R.Intn(5)) + zeros(g.Pick(38, 57, 60, 95, 120)) + g.PickS("1", "4", "5", "9")
+				}
+				g.Load(g.PickS(regs...), g.Bool(), d, int64(g.R.Intn(21)-10), g.Pick(0, 50), g.Mode())
 			case k < 87:
 				g.Emit(M{"op": "Ctx.NewInt64", "c": "c0", "z": z, "i": itoa(g.R.Int63n(2000000) - 1000000)})
 			case k < 89:
